@@ -110,6 +110,25 @@ func MakePayload(r *rand.Rand, class string) Payload {
 			}
 		}
 		b = b[:n]
+	case "multiblock": // several hundred KB of mixed content: 4+ bzip2 -1 blocks, several 64 KiB deflate/xz units
+		n := 330000 + r.Intn(150000)
+		for len(b) < n {
+			switch r.Intn(3) {
+			case 0:
+				k := r.Intn(len(text))
+				b = append(b, text[k:]...)
+			case 1:
+				t := make([]byte, 1+r.Intn(600))
+				r.Read(t)
+				b = append(b, t...)
+			default:
+				if len(b) > 100 {
+					o := r.Intn(len(b) - 50)
+					b = append(b, b[o:o+50]...)
+				}
+			}
+		}
+		b = b[:n]
 	case "hugeff": // long runs of 0xFF/0xFE: accumulator-overflow territory for Adler-32 style sums
 		n := 700000 + r.Intn(600000)
 		b = bytes.Repeat([]byte{0xFF}, n)
@@ -250,6 +269,9 @@ func ToolItems(r *rand.Rand, p Payload) ([]*Item, error) {
 	var out []*Item
 	if bz := findTool("bzip2"); bz != "" {
 		lvl := 1 + r.Intn(9)
+		if p.Class == "multiblock" {
+			lvl = 1 + r.Intn(2) // 100k / 200k blocks: the stream has several
+		}
 		enc, err := pipeTool(bz, []string{fmt.Sprintf("-%d", lvl), "-c"}, p.B)
 		if err != nil {
 			return nil, err
